@@ -61,7 +61,9 @@ class Assertion:
             if op == PolicyOp.Policy_add:
                 rm.add_link(rule[0], rule[1], *rule[2:])
             elif op == PolicyOp.Policy_remove:
-                rm.delete_link(rule[0], rule[1], *rule[2:])
+                # rules that differ only beyond the role definition share one link: it goes with the last of them
+                if not any(other[:count] == rule for other in self.policy):
+                    rm.delete_link(rule[0], rule[1], *rule[2:])
             else:
                 raise TypeError("Invalid operation: " + str(op))
 
